@@ -40,7 +40,7 @@ RULE = ('paths: every sequence of 0..n segments (n = 3 quick / 4 thorough) over 
         'b.txt, %2e%2e, %252e%252e, ..%2f, %2e%2e%2f, ..\\, %5c.., secret.txt, docroot-extra, leak.txt, sp%20ace.txt, '
         '%2f-encoded absolute path of the secret} x mount (none, "/", "/static" with the segments after "/static/" and glued to '
         '"/static") x dirlisting x front end (HTTP bytes, direct request event, WSGI application); ranges: unit {bytes=, items=, '
-        'no "="} x one or two specs "a-b" with a, b in {empty, 0, 1, 5, 9, 10, 11, 100, x, -1} x file size {0, 1, 10, 100} x front end; positions of 19 to 6000 digits (first, last, suffix, reversed, in a list) '
+        'no "="} x one or two specs "a-b" with a, b in {empty, 0, 1, 5, 9, 10, 11, 100, x, -1, backslash} x file size {0, 1, 10, 100} x front end; positions of 19 to 6000 digits (first, last, suffix, reversed, in a list) '
         '(quick: two-spec headers only with unit bytes on the 10-byte file through HTTP; glued mount, mount "/" and dirlisting off with one '
         'segment less); '
         'each element executed once on fresh HTTP/Static/Dispatcher objects driven by tick(); a case is non-trivial when its path '
@@ -70,7 +70,7 @@ RANGE_SIZES = (0, 1, 10, 100)
 RANGE_BIG = 20000
 RANGE_BIG_SPECS = ('100-5099', '0-4095', '0-4096', '4095-8192', '4096-8191', '1-19998', '-5000', '-4097', '15000-', '12000-25000',
                    '0-0', '19999-19999', '0-4095,8192-12287', '100-5099,15000-')
-RANGE_VALUES = ('', '0', '1', '5', '9', '10', '11', '100', 'x', '-1')
+RANGE_VALUES = ('', '0', '1', '5', '9', '10', '11', '100', 'x', '-1', '\\')      # (the last one: a backslash)
 RANGE_UNITS = ('bytes=', 'items=', '')
 # positions far beyond any file (and beyond what int() converts without complaint: 4300 digits)
 RANGE_HUGE = tuple('9' * n for n in (19, 40, 400, 4300, 4301, 6000))
